@@ -16,7 +16,7 @@ Vocabulary (all defined in the model / proof files):
  * `Visible h cfg src p rel node` — `rel` leads from the directory `p` through real directories that
    are neither secret mounts nor mount points to the entry `node`.
 -/
-import ArvVerif.Proofs.C17_Frags
+import ArvVerif.Proofs.C17_NoCollide
 set_option linter.unusedSimpArgs false
 namespace ArvVerif.C17
 
@@ -349,6 +349,21 @@ theorem C17_mount_content_partial (h : Host) (cfg : Cfg) (hwf : HostWF h) (wf : 
 /-- bytes written to Keep by `Copy` are the bytes of the planned host files only -/
 theorem C17_put_bytes (h : Host) (p : Plan) :
     putBytes h p = (p.files.map fun f => (srcContent h f.2).length).sum := rfl
+
+/-- **output equals tree, with hypotheses a real container satisfies** (`NoCollide` derived): if
+every mount beneath the output path is a mount point the entry loop skips and it and the directories
+above it exist on the host (`MountsReal` — otherwise the mount could not have been made), then for
+every tree whose links have canonical targets (`Direct`), a successful scan whose fragments load
+gives a successful `Copy` that saves exactly what `Shows` derives from the output directory plus the
+content of the mounted collections: mounted content and host content never claim the same output
+path (`scan_nocollide`: determinism of `Shows` per output path, coverage of `loadFrags`). -/
+theorem C17_output_equals_tree_mounts_real (h : Host) (cfg : Cfg) (hwf : HostWF h) (wf : CfgWF h cfg)
+    (hout : h.get cfg.hostOut = some .dir) (hs : supported cfg = true) (hx : InOut cfg cfg.ctrOut)
+    (hdirect : Direct h cfg) (mr : MountsReal h cfg) (fuel : Nat) (plan : Plan)
+    (hscan : scan h cfg fuel = .ok plan) (t0 : Tree) (hload : loadFrags [] plan.frags = some t0) :
+    OutputEqualsTree h cfg fuel t0 :=
+  C17_output_equals_tree_partial h cfg hwf wf hout hs hx hdirect fuel plan hscan t0 hload
+    (scan_nocollide h cfg hwf wf hout hs hx hdirect mr fuel plan hscan t0 hload)
 
 /-- **output equals tree, without `NoCollide`** — what exactly `Copy` saves when mounted content and
 host content claim the same output path. Under the other hypotheses, whenever `Copy` succeeds there
